@@ -130,6 +130,7 @@ void *verif_memmove(void *d, const void *s, size_t n)
 	__CPROVER_assert(CURBUF != NULL && (unsigned char *)d == CURBUF->u.buf, "[C17] the unwritten remainder is moved to the start of the buffer");
 	__CPROVER_assert((const unsigned char *)s == CURBUF->u.buf + g_write_n && n == (size_t)(g_bytes_at_write - g_write_n), "[C17] exactly the bytes after the written prefix are kept, in order: nothing lost, nothing duplicated");
 	__CPROVER_assert(n == (size_t)v_pump.bytes, "[C17] and the byte count agrees");
+	__CPROVER_assert(n <= BUF_SIZE && __CPROVER_r_ok(s, n) && __CPROVER_w_ok(d, n), "[C18,C17] the move stays inside the buffer block (a failed write's -1 must never be used as a byte count)");
 	g_memmoves++;
 	return d;
 }
@@ -246,7 +247,7 @@ static void h_pump_common(int splice_mode)
 	__CPROVER_assert(IFF(r == -1, rd_err || wr_err), "[C17] -1 exactly on an I/O error (a would-block condition or an interrupted call is not an error)");
 	__CPROVER_assert(v_pump.bytes == bytes0 + g_read_n - g_write_n, "[C17,C15] conservation: buffered = previously buffered + read - written (no byte lost or duplicated)");
 	if (r >= 0) {
-		__CPROVER_assert(splice_mode ? RI_SPLICE(&v_pump) : (RI_RW(&v_pump) || (v_pump.buf == NULL && v_pump.bytes == 0)), "[C17,C15] the pump state stays well formed");
+		__CPROVER_assert(splice_mode ? RI_SPLICE(&v_pump) : (RI_RW(&v_pump) || (v_pump.buf == NULL && v_pump.bytes == 0)), "[C17,C15,C18] the pump state stays well formed (0 <= bytes <= BUF_SIZE: every later read, write and move window is computed from it)");
 		__CPROVER_assert(IFF(r == 0, v_pump.saw_fin == 2), "[C17,C15] returns 0 exactly from the moment end-of-file has been relayed, 1 while more remains");
 		__CPROVER_assert(v_pump.saw_fin >= fin0 && IFF(v_pump.saw_fin >= 1, fin_seen), "[C17,C15] end-of-file is noted when the input reports it and never forgotten");
 		__CPROVER_assert(IFF(v_pump.saw_fin == 2, fin_seen && v_pump.bytes == 0), "[C17,C15] end-of-file is relayed as soon as, and only after, all buffered data has been delivered");
